@@ -24,7 +24,7 @@ PROFILES = [
 RI_PROFILE = {"no_action_after_open": True, "optional_nonreentrant": True, "strict_after_open": 0.0}
 
 
-def run_pool(ctx, rng, quick, pool, key_prefix, with_end=False, nwalk=None, enum_budget=None, cap=None, on_case=None):
+def run_pool(ctx, rng, quick, pool, key_prefix, with_end=False, nwalk=None, enum_budget=None, cap=None, on_case=None, pointers=False, extra_inputs=None):
     stats = ctx.extra.setdefault("oracle_slack_counters", {})
     nwalk = nwalk or (40 if quick else 90)
     enum_budget = enum_budget or (150 if quick else 800)
@@ -41,6 +41,8 @@ def run_pool(ctx, rng, quick, pool, key_prefix, with_end=False, nwalk=None, enum
                 short = [x for x in ins if len(x) <= 2]
                 rest = [x for x in ins if len(x) > 2]
                 ins = short[:cap // 4] + rng.sample(rest, min(len(rest), cap - min(len(short), cap // 4)))
+            if extra_inputs:
+                ins = sorted(set(ins) | set(extra_inputs(rng, ast, ins)), key=lambda b: (len(b), b))
             p.meta["inputs"] = ins
             p.meta["L"] = L
             progs.append(p)
@@ -78,7 +80,7 @@ def run_pool(ctx, rng, quick, pool, key_prefix, with_end=False, nwalk=None, enum
                 ctx.count("watchdog_inconclusive")
                 continue
             use_end = bool(with_end and p.eof)
-            v = ri.check(p.meta["ast"], bs, items, p, stats, with_end=use_end)
+            v = ri.check(p.meta["ast"], bs, items, p, stats, with_end=use_end, pointers=pointers and p.indirect)
             if v is None:
                 if ev:
                     ctx.nontrivial((p.meta["src"], bs.hex()))
@@ -102,6 +104,10 @@ def run_pool(ctx, rng, quick, pool, key_prefix, with_end=False, nwalk=None, enum
                 "nmfu_source": p.meta["src"], "nmfu_args": p.meta["args"], "input_hex": bs.hex(), "input": bs.decode("latin-1"),
                 "observed": trace.describe(items, p, 30), "prescribed_effects": expected, "stderr": (run_.stderr or "")[-1000:],
                 "ast_pickle_hex": pickle.dumps(p.meta["ast"]).hex(), "items": [list(x) for x in items]})
+        if not ctx.samples and res:
+            rid, run_ = next(iter(res.items()))
+            ctx.sample({"program": run_.prog.meta["src"][:700], "args": run_.prog.meta["args"],
+                        "input": run_.prog.meta["inputs"][int(rid.split(".")[1])].decode("latin-1"), "observed": trace.describe(trace.normal_form(run_, run_.prog), run_.prog, 8)})
         if len(ctx.samples) < 4 and batch.live:
             for rid, run_ in res.items():
                 it = trace.normal_form(run_, run_.prog)
